@@ -12,5 +12,5 @@ trap 'rm -rf "$W"' EXIT
 ./bin/rewrite -repo "$REPO" -out "$W/ov" -inject "$(pwd)/inject"
 go build -tags verif -overlay "$W/ov/overlay.json" -o "$W/verif" ./cmd/verif
 # engine self-tests (lost update found at bound 1 and not at 0, deadlock detection, replay determinism, product size)
-go test -count=1 ./engine/...
+go test -count=1 ./engine/... ./tools/rewrite/
 echo "setup ok"
